@@ -329,6 +329,13 @@ func (OracleC07) sharesWithin(x *Exec, pre, post *Snap, d DelSnap, pk posKey, to
 	lo := new(big.Rat).Quo(new(big.Rat).Mul(tLo, sAfter), vtHi)
 	lo.Sub(lo, new(big.Rat).Mul(lo, big.NewRat(1, 100_000_000_000_000_000)))
 	lo.Sub(lo, big.NewRat(2, 100))
+	// the module multiplies the tokens by a shares-per-token ratio rounded at 1e-18 (absolute):
+	// up to tokens * 1e-18 shares either way (the ratio underflows to 0 below 5e-19)
+	res := new(big.Rat).Mul(tHi, big.NewRat(1, 1_000_000_000_000_000_000))
+	lo.Sub(lo, res)
+	if vtLo.Sign() > 0 {
+		hi.Add(hi, res)
+	}
 	if hi.Cmp(full) >= 0 {
 		// capped at what the position still holds
 		hi = full
